@@ -199,8 +199,12 @@ Dest(s, l, r) ==
     ELSE IF ErrClass(r, s.errdev) THEN s.cfg[l].we
     ELSE s.cfg[l].wn
 
+\* a logger whose three writer components are the defaults may never have been given writers: it then has
+\* no configuration of its own to remove a default destination from (it follows the package defaults)
+OwnWriters(s, l) == s.cfg[l].wn # <<STDOUT>> \/ s.cfg[l].we # <<STDERR>> \/ s.cfg[l].wl # NoWL
 Guard(s, e) ==
-    CASE e.op = "Set" -> e.l \in Live(s) /\ e.k \in SetterKinds
+    CASE e.op = "Set" -> /\ e.l \in Live(s) /\ e.k \in SetterKinds
+                         /\ ((e.k \in {"RemoveWriter", "RemoveErrorWriter"} /\ e.a < 0) => OwnWriters(s, e.l))
       [] e.op = "With" -> e.l \in Live(s) /\ e.k \in SetterKinds
       [] e.op = "New" -> e.l \in Live(s)
       [] e.op = "NewDetached" -> TRUE
